@@ -5,9 +5,9 @@ including the branches that are wrong.  Shared by C12 (this file's owner), C01 a
   * `_attempt_from`            transform.py:144-160      `attemptFrom`
   * `_from_byte_like`          :162-167                  `fromByteLike`
   * `_attempt_from_number`     :169-182                  `attemptFromNumber`
-  * `to_null … to_enum`        :196-678                  `toNull … toEnum`
-  * `handle_unresolved`        :701-709                  `handleUnresolved`
-  * `apply` / `__call__`       :711-734                  `apply` / `transform`
+  * `to_null … to_enum`        :196-690                  `toNull … toEnum`
+  * `handle_unresolved`        :713-721                  `handleUnresolved`
+  * `apply` / `__call__`       :723-746                  `apply` / `transform`
 
 Values (`V`) carry their class (a builtin `Base` and a user-subclass tag); an `Outcome` keeps apart
 `ok`, `perr` (a TypeError/ValueError raised by the converter — callers such as `Rule.parse` wrap these into
@@ -633,7 +633,7 @@ def decOfFloatExact : FloatV → DecV
 def decOfStr (P : Prims) (s : String) : Outcome DecV :=
   if s == "" then .escape .invalidOperation else P.decOfStr s
 
-/-- `Decimal(data)` (to_integer, transform.py:426-429); `InvalidOperation` is still an escape here -/
+/-- `Decimal(data)` (to_integer, transform.py:434-437); `InvalidOperation` is still an escape here -/
 def decimalOf (P : Prims) (d : V) : Outcome DecV :=
   match d with
   | .bool b => .ok (.fin false (if b then 1 else 0) 0)
@@ -776,7 +776,7 @@ def toArray (P : Prims) (f : Flags) (b : SeqK) (c : Nat) (v : V) : Outcome V :=
 def toIter (P : Prims) (f : Flags) (a : Abc) (v : V) : Outcome V :=
   if isInstAbc v a then .ok v else toArray P f .list 0 v
 
-/-- cookie / comma syntax of `to_dict` (:374-381) -/
+/-- cookie / comma syntax of `to_dict` (:382-389) -/
 def cookieDict (s : String) : List (V × V) :=
   let spliter : Char := if s.toList.contains ';' then ';' else ','
   (splitOnChar spliter s.toList).foldl (fun acc value =>
@@ -793,7 +793,7 @@ def qsDict : V → Outcome (List (V × V))
       | _ => (k, v))
   | _ => .unmodelled "parse_qs result"
 
-/-- the string branch of `to_dict` (:351-382) -/
+/-- the string branch of `to_dict` (:359-390) -/
 def dictOfString (P : Prims) (E : Env) (f : Flags) (c : Nat) (s0 : String) : Outcome V :=
   match jsonLoadsS P f.ndl s0 with
   | .ok j => do let kvs ← dictOf j; pure (.dict c kvs)
@@ -817,7 +817,7 @@ def dictOfString (P : Prims) (E : Env) (f : Flags) (c : Nat) (s0 : String) : Out
   | .diverge => .diverge
   | .unmodelled w => .unmodelled w
 
-/-- everything of `to_dict` after the pair attempts (:349-389) -/
+/-- everything of `to_dict` after the pair attempts (:357-397) -/
 def dictRest (P : Prims) (E : Env) (f : Flags) (c : Nat) (v : V) : Outcome V := do
   let d ← attemptFrom E f v
   let d ← fromByteLike P f d
@@ -830,7 +830,7 @@ def itemsOf : V → List V
   | .seq _ _ xs => xs
   | _ => []
 
-/-- `to_dict` :312-389 (with fix C12-dict-pairs: `multi(data)` in the no_data_loss branch and no pair
+/-- `to_dict` :312-397 (with fix C12-dict-pairs: `multi(data)` in the no_data_loss branch and no pair
 reading of collections that hold mappings in the lenient branch) -/
 def toDict (P : Prims) (E : Env) (f : Flags) (c : Nat) (v : V) : Outcome V :=
   if isInstT v (.cls .dict c) then .ok v else
@@ -860,7 +860,7 @@ def toDict (P : Prims) (E : Env) (f : Flags) (c : Nat) (v : V) : Outcome V :=
 def toMapping (P : Prims) (E : Env) (f : Flags) (v : V) : Outcome V :=
   if isInstAbc v .mapping then .ok v else toDict P E f 0 v
 
-/-- `to_float` :391-403 -/
+/-- `to_float` :399-411 -/
 def toFloat (P : Prims) (E : Env) (f : Flags) (c : Nat) (v : V) : Outcome V :=
   match v with
   | .float _ x => .ok (.float c (normZ x))
@@ -876,7 +876,7 @@ def decFinExp0 : DecV → Bool
   | .fin _ _ e => e == 0
   | _ => false
 
-/-- the tail of `to_integer` (:426-439): `Decimal(data)` (InvalidOperation → TypeError), the no_data_loss
+/-- the tail of `to_integer` (:434-447): `Decimal(data)` (InvalidOperation → TypeError), the no_data_loss
 checks, `t(data)` -/
 def intFinish (P : Prims) (f : Flags) (c : Nat) (d : V) : Outcome V :=
   match decimalOf P d with
@@ -891,7 +891,7 @@ def intFinish (P : Prims) (f : Flags) (c : Nat) (d : V) : Outcome V :=
   | .unmodelled w => .unmodelled w
 
 open Utv.Gen.Tables in
-/-- `to_integer` after `_attempt_from_number` (:418-424): the word tables (plain `0` / `1`, whatever `t` is),
+/-- `to_integer` after `_attempt_from_number` (:426-432): the word tables (plain `0` / `1`, whatever `t` is),
 the `isinstance(data, t)` shortcut -/
 def intAfter (P : Prims) (f : Flags) (c : Nat) (d : V) : Outcome V :=
   match d with
@@ -901,7 +901,7 @@ def intAfter (P : Prims) (f : Flags) (c : Nat) (d : V) : Outcome V :=
     else intFinish P f c d
   | _ => if isInstT d (.cls .int c) then .ok d else intFinish P f c d
 
-/-- `to_integer` :404-439 -/
+/-- `to_integer` :412-447 -/
 def toInteger (P : Prims) (E : Env) (f : Flags) (c : Nat) (v : V) : Outcome V :=
   match v with
   | .bool b => .ok (.int c (if b then 1 else 0))
@@ -913,7 +913,7 @@ def toInteger (P : Prims) (E : Env) (f : Flags) (c : Nat) (v : V) : Outcome V :=
       let d ← attemptFromNumber P E f v
       intAfter P f c d
 
-/-- `to_decimal` :440-453 -/
+/-- `to_decimal` :448-461 -/
 def toDecimal (P : Prims) (E : Env) (f : Flags) (c : Nat) (v : V) : Outcome V :=
   match v with
   | .dec _ x => .ok (.dec c x)
@@ -937,7 +937,7 @@ def complexOf (P : Prims) (d : V) : Outcome V :=
   | .str _ s => if s == "" then .perr .valueError else P.complexOf d
   | _ => P.complexOf d
 
-/-- `to_complex` :454-470 -/
+/-- `to_complex` :462-478 -/
 def toComplex (P : Prims) (E : Env) (f : Flags) (c : Nat) (v : V) : Outcome V :=
   if isInstT v (.cls .complex c) then .ok v else
   if f.nec then do
@@ -951,7 +951,7 @@ def toComplex (P : Prims) (E : Env) (f : Flags) (c : Nat) (v : V) : Outcome V :=
       let d ← attemptFromNumber P E f v
       complexOf P d
 
-/-- `data == n` for `n ∈ {0, 1}` (to_bool :476-479); a signalling Decimal NaN raises InvalidOperation -/
+/-- `data == n` for `n ∈ {0, 1}` (to_bool :484-487); a signalling Decimal NaN raises InvalidOperation -/
 def eqSmall (v : V) (n : Int) : Outcome Bool :=
   match v with
   | .dec _ (.nan true) => .escape .invalidOperation
@@ -962,7 +962,7 @@ def eqSmall (v : V) (n : Int) : Outcome Bool :=
     | Option.none => .ok false
 
 open Utv.Gen.Tables in
-/-- `to_bool` :471-493 -/
+/-- `to_bool` :479-501 -/
 def toBool (P : Prims) (f : Flags) (v : V) : Outcome V :=
   match v with
   | .bool b => .ok (.bool b)
@@ -1005,7 +1005,7 @@ def isInfinite : V → Bool
   | .dec _ (.inf _) => true
   | _ => false
 
-/-- `while abs(data) > MS_WATERSHED: data /= 1000` (transform.py:523-524, 564-565).  On ±inf the loop
+/-- `while abs(data) > MS_WATERSHED: data /= 1000` (transform.py:531-532, 564-565).  On ±inf the loop
 never ends (`inf / 1000 = inf`): `diverge` (no longer reachable from `to_datetime`, which now rejects
 non-finite values before the loop; kept because it is what the loop itself does).  `fuel` bounds the
 iterations on finite values. -/
@@ -1056,7 +1056,7 @@ def isFiniteTs (P : Prims) (x : V) : Outcome Bool :=
   | .dec _ d => do let f ← floatOfDec P d; pure (fin f)
   | _ => .perr .typeError
 
-/-- the timestamp branch of `to_datetime` (:520-525, :562-566): non-finite values raise ValueError (fix 8de0bd0:
+/-- the timestamp branch of `to_datetime` (:528-533, :574-578): non-finite values raise ValueError (fix 8de0bd0:
 before it the loop below never ended on ±inf), then the watershed loop, then `utcfromtimestamp` -/
 def timestampResult (P : Prims) (c : Nat) (x : V) : Outcome V := do
   if !(← isFiniteTs P x) then .perr .valueError else do
@@ -1064,7 +1064,7 @@ def timestampResult (P : Prims) (c : Nat) (x : V) : Outcome V := do
   let r ← P.utcFromTs y
   pure (retag c r)
 
-/-- `to_datetime` :511-568.  `toFloatStr` is `self.to_float(data, float)` on the cleaned string. -/
+/-- `to_datetime` :519-580.  `toFloatStr` is `self.to_float(data, float)` on the cleaned string. -/
 def toDatetime (P : Prims) (E : Env) (f : Flags) (c : Nat) (dateFirst : Bool) (v : V) : Outcome V :=
   if isInstT v (.cls .datetime c) then .ok v else
   match v with
@@ -1098,13 +1098,11 @@ def toDatetime (P : Prims) (E : Env) (f : Flags) (c : Nat) (dateFirst : Bool) (v
           | .escape e => .escape e
           | .diverge => .diverge
           | .unmodelled w => .unmodelled w
-    | .seq _ _ _ => .escape .attribute          -- `"GMT" in data` is False, then `data.endswith` / `data.replace`
-    | .dict _ _ => .escape .attribute
-    | _ => .perr .typeError                     -- `"GMT" in data`: argument is not iterable
+    | _ => .perr .typeError                     -- `if not isinstance(data, str): raise TypeError('invalid datetime')` (7b3aeda)
 
 def midnight (t : TimeV) : Bool := t.hh == 0 && t.mi == 0 && t.ss == 0 && t.us == 0
 
-/-- `to_date` :494-509 (registered with allow_subclasses=False: only `date` itself) -/
+/-- `to_date` :502-517 (registered with allow_subclasses=False: only `date` itself) -/
 def toDate (P : Prims) (E : Env) (f : Flags) (v : V) : Outcome V :=
   match v with
   | .datetime _ d _ => if f.ndl then .perr .valueError else .ok (.date 0 d)
@@ -1116,7 +1114,7 @@ def toDate (P : Prims) (E : Env) (f : Flags) (v : V) : Outcome V :=
       if f.ndl && !midnight t then .perr .valueError else pure (.date 0 d)
     | _ => .unmodelled "to_datetime returned a non-datetime"
 
-/-- `kw` handling of `to_timedelta` :588-600 -/
+/-- `kw` handling of `to_timedelta` :600-612 -/
 def durationKw (P : Prims) (_c : Nat) (kw : List (String × Option String)) : Outcome V := do
   let sign : Int := if kw.lookup "sign" == some (some "-") then -1 else 1
   let kw := kw.filter (fun p => p.1 != "sign")
@@ -1147,7 +1145,7 @@ def durationRegs (P : Prims) (c : Nat) (s : String) : List Nat → Outcome (Opti
     | some kw => do let r ← durationKw P c kw; pure (some r)
     | Option.none => durationRegs P c s rest
 
-/-- `to_timedelta` :570-610 -/
+/-- `to_timedelta` :582-622 -/
 def toTimedelta (P : Prims) (E : Env) (f : Flags) (c : Nat) (v : V) : Outcome V :=
   if isInstT v (.cls .timedelta c) then .ok v else do
   let d ← attemptFrom E f v
@@ -1175,7 +1173,7 @@ def toTimedelta (P : Prims) (E : Env) (f : Flags) (c : Nat) (v : V) : Outcome V 
   | .diverge => .diverge
   | .unmodelled w => .unmodelled w
 
-/-- `to_time` :612-629 -/
+/-- `to_time` :624-641 -/
 def toTime (P : Prims) (E : Env) (f : Flags) (c : Nat) (v : V) : Outcome V :=
   if isInstT v (.cls .time c) then .ok v else do
   let d ← attemptFrom E f v
@@ -1207,7 +1205,7 @@ def toTime (P : Prims) (E : Env) (f : Flags) (c : Nat) (v : V) : Outcome V :=
 
 def bytesToNat (bs : List UInt8) : Nat := bs.foldl (fun acc b => acc * 256 + b.toNat) 0
 
-/-- `to_uuid` :631-654 -/
+/-- `to_uuid` :643-666 -/
 def toUuid (P : Prims) (f : Flags) (c : Nat) (v : V) : Outcome V :=
   if isInstT v (.cls .uuid c) then .ok v else
   match v with
@@ -1289,7 +1287,7 @@ def enumNameFallback (E : Env) (f : Flags) (k : Nat) (v : V) (o : Outcome V) : O
     else o
   | _ => o
 
-/-- `to_enum` :658-677 (with fix C12-enum-value-first: member names are a lenient fallback after the value
+/-- `to_enum` :670-689 (with fix C12-enum-value-first: member names are a lenient fallback after the value
 lookup, so a name never shadows another member's value) -/
 def toEnum (P : Prims) (E : Env) (f : Flags) (k : Nat) (v : V) : Outcome V :=
   match v with
@@ -1315,7 +1313,7 @@ inductive Conv where
   deriving DecidableEq, Repr
 
 /-- `TypeTransformer.registry.resolve(t)` for the classes of `Target` (registration order and
-`allow_subclasses` flags of transform.py:196-658; `to_null` and `to_date` do not take subclasses;
+`allow_subclasses` flags of transform.py:196-670; `to_null` and `to_date` do not take subclasses;
 `to_bool` is registered after `to_integer`, `to_enum` last) -/
 def resolve : Target → Option Conv
   | .cls .noneType 0 => some .null
@@ -1371,7 +1369,7 @@ def runConv (P : Prims) (E : Env) (f : Flags) (t : Target) (v : V) : Conv → Ou
   | .iter => (match t with | .abc a => toIter P f a v | _ => .unmodelled "target")
   | .mapping => toMapping P E f v
 
-/-- `handle_unresolved` :701-709 (`TypeMismatchError` is a TypeError) -/
+/-- `handle_unresolved` :713-721 (`TypeMismatchError` is a TypeError) -/
 def handleUnresolved (P : Prims) (u : Unresolved) (t : Target) (v : V) : Outcome V :=
   if isInstT v t then .ok v else
   match u with
@@ -1388,7 +1386,7 @@ def modelledInput (E : Env) (t : Target) : V → Bool
     | Option.none => false
   | _ => true
 
-/-- `TypeTransformer.__call__` :723-734 (targets are classes: the ForwardRef branch is not reachable) -/
+/-- `TypeTransformer.__call__` :735-746 (targets are classes: the ForwardRef branch is not reachable) -/
 def transformU (P : Prims) (E : Env) (f : Flags) (u : Unresolved) (t : Target) (v : V) : Outcome V :=
   if typeEq v t then .ok v else
   if !modelledInput E t v then .unmodelled "member of a mixed-in enum as input" else
@@ -1399,7 +1397,7 @@ def transformU (P : Prims) (E : Env) (f : Flags) (u : Unresolved) (t : Target) (
 def transform (P : Prims) (E : Env) (f : Flags) (t : Target) (v : V) : Outcome V :=
   transformU P E f .throw t v
 
-/-- `TypeTransformer.apply` :711-721: with a resolved `func` the exact-type shortcut, then the function -/
+/-- `TypeTransformer.apply` :723-733: with a resolved `func` the exact-type shortcut, then the function -/
 def apply (P : Prims) (E : Env) (f : Flags) (u : Unresolved) (t : Target) (func : Option Conv) (v : V) : Outcome V :=
   match func with
   | Option.none => transformU P E f u t v
